@@ -81,7 +81,7 @@ const L_STEP: i64 = 1;
 const L_CANCEL: i64 = 3;
 const L_MARK: i64 = 4;
 // op kinds of Start: label = [0, t, op, a, b]
-const OP_GET: i64 = 0; // a = mode (0 get, 1 try_get, 2 timeout_get(None), 3 (Some 0), 4 (Some 50ms)), b = remove variant
+const OP_GET: i64 = 0; // a = mode (0 get, 1 try_get, 2 timeout_get(None), 3 (Some 0), 4 (Some 700us)), b = remove variant
 const OP_ADD: i64 = 1; // a = oid (fresh or one the caller got back), b = 1 add / 0 try_add
 const OP_DROP: i64 = 2; // a = oid
 const OP_TAKE: i64 = 3; // a = oid
@@ -98,7 +98,8 @@ fn dur(code: i64) -> Option<Duration> {
     match code {
         0 => None,
         1 => Some(Duration::ZERO),
-        _ => Some(Duration::from_millis(50)),
+        // a finite timeout below one millisecond: still not zero
+        _ => Some(Duration::from_micros(700)),
     }
 }
 
